@@ -119,7 +119,6 @@ Section Derive.
         eapply post_weaken; [| |exact Hb]; auto. apply (a_same C H).
       + intros x. apply d_all_levels; auto.
         eapply post_weaken; [| |exact (Hk x)]; auto. apply (ok_inv_weak C (a_rel C H)).
-    - apply (a_assert C H).
     - apply (a_debug C H).
     - apply d_name.
     - intros rec Hrec. apply d_all_levels; auto. apply d_parse_body.
